@@ -3,14 +3,20 @@ NOTES = ("All checks are driven by /verif/check (python3, stdlib). Specification
          "/verif/harness (binary gv) and the goml CLI are rebuilt from /repo's working tree on every run with --cfg goml_verif. "
          "Exit 0 = held (KNOWN-FINDING lines for defects listed in known_findings.json), 1 = VIOLATION, 2 = tool error.")
 ENGINES = [
-    {"name": "tlc", "path": "/verif/spec", "serves_properties": ["C01", "C02", "C05", "C06", "C07", "C08", "C09", "C10", "C13", "C15", "C17", "C18"],
+    {"name": "tlc", "path": "/verif/spec", "serves_properties": ["C01", "C02", "C05", "C06", "C07", "C08", "C09", "C10", "C11", "C13", "C15", "C17", "C18"],
      "kind_free_text": "TLA+ specifications model-checked / simulated by TLC 1.8"},
-    {"name": "gv", "path": "/verif/harness", "serves_properties": ["C01", "C02", "C05", "C06", "C07", "C08", "C09", "C10", "C13", "C15", "C17", "C18"],
+    {"name": "gv", "path": "/verif/harness", "serves_properties": ["C01", "C02", "C05", "C06", "C07", "C08", "C09", "C10", "C11", "C13", "C15", "C17", "C18"],
      "kind_free_text": "Rust conformance harness with path dependencies on /repo/crates/*, and the goml CLI built from /repo"},
 ]
 PENDING = "check not built yet in this round (planned in DESIGN.md §4); not a claim that the technique cannot apply"
 NOT_APPLICABLE = {p: PENDING for p in ["C%02d" % i for i in range(1, 21)]}
 CHECKS = {
+    "C11": {
+        "level": "model_checking",
+        "technique": "Pratt.tla (documented precedence table, minimal-parenthesis Render, declarative Parse) checked by TLC for Parse(Render(t)) = t on all small trees; each rendered token list, with varied trivia, parsed by the real lexer/parser/AST lowering and compared with the tree; Lexis.tla literal denotations compared with the AST's literal values",
+        "text": "TLC enumerates every expression shape with <= 2 operator nodes over 12 binary, 2 prefix and 5 postfix forms (and <= 3 nodes over representative operators), checks that the documented grammar is self-consistent, and emits (tokens, tree); each token list is joined with spaces, without spaces, and with newlines/tabs/line comments and parsed by parse_ast_file; the ast::File expression must equal the tree. Lexis.tla enumerates string literal bodies over every escape the lexer accepts plus plain/UTF-8 pieces with their denotation; the AST string value must be the denoted bytes; numeric spellings (leading zeros, suffixes, floats) and multi-line strings likewise.",
+        "note": "Leaves are variables only; item/pattern/type forms are exercised through the other families' rendered programs rather than enumerated here.",
+    },
     "C18": {
         "level": "model_checking",
         "technique": "Derive.tla (prescribed renderings + JSON recogniser/decoder) checked by TLC on enumerated values (Decode(ToJson(v)) = v); derive templates evaluated by GomlSem.tla+Derive.tla vs GoSem.tla on the real derived code",
